@@ -17,6 +17,10 @@ SHORT = {"C01": "OWN-2 (forked append)", "C05": "REC (recursion table)", "C07": 
  "C20": "PANIC-type, REC, VAL-1 (validation not behind a random draw), ND-1 (no goroutines/process control on the request path)"}
 EXTRA = {
  "C01": " Plus OWN-2 (no forked append: a loop never appends repeatedly to one base defined outside it), decided on SSA without a reference.",
+ "C03": " Plus E5-fp on the rounding of utilities (the floating-point operations are evaluated in the reference's order, not only equal over the reals).",
+ "C04": " Plus E5-fp on the rounding of utilities (the floating-point operations are evaluated in the reference's order, not only equal over the reals).",
+ "C14": " Plus E5-fp on the level generators (the floating-point operations are evaluated in the reference's order: a level computed as min+(max-min) instead of being clamped differs only in rounding).",
+ "C16": " Plus E5-fp on the reversal (the mirror is evaluated in the reference's floating-point order - from the nearer end of the range - so that the end points are exact).",
  "C05": " Plus REC (every recursion cycle on the request path is tabled with its termination argument).",
  "C07": " Plus, without references: TCH (type channels: dynamic types produced for MethodParameters/additions vs the consumers' type assertions, per method id), LIT (literal completeness of working-state and parameter structs), LEN (make/fill agreement).",
  "C09": " Plus, without references: OWN-1 (no in-place write to memory borrowed from the request or the working state, resolved interprocedurally), OWN-2 (no forked append), SHR-1/SHR-4 (no request-path write to memory that outlives the request).",
